@@ -99,9 +99,18 @@ SysCrashOK ==
   /\ (IF Proto = "cache_put" THEN Inputs \ Victims ELSE Inputs) \subseteq Range(R.retrievable)
   /\ (Proto = "cache_put" => R.wrong_data = 0 /\ R.temps_after_recover = 0)
 TrSysCrash == IsEvent("AfSysCrash") /\ (SysCrashOK = TRUE) /\ UNCHANGED vars
+(* the next process worked in the directory the killed one left (leftover temporary file included): whatever is under a
+   final name afterwards - old or written just now - is complete, and what was retrievable still is (the chunk cache
+   may have evicted to make room) *)
+SysRetryOK ==
+  /\ \A i \in 1..Len(R.files) : R.files[i].kind = "final" => R.files[i].ok
+  /\ R.loader_ok
+  /\ (Proto # "cache_put" => Inputs \subseteq Range(R.retrievable))
+  /\ (Proto = "cache_put" => R.wrong_data = 0)
+TrSysRetry == IsEvent("AfSysRetry") /\ (SysRetryOK = TRUE) /\ UNCHANGED vars
 TrEnd == IsEvent("AfEnd") /\ R.ok /\ UNCHANGED vars
 
-TraceNext == TrReset \/ TrStart \/ TrSnapshot \/ TrEnd \/ TrSys \/ TrSysCrash
+TraceNext == TrReset \/ TrStart \/ TrSnapshot \/ TrEnd \/ TrSys \/ TrSysCrash \/ TrSysRetry
 TraceSpec == TraceInit /\ [][TraceNext]_tvars
 TraceAccepted ==
   LET d == TLCGet("stats").diameter IN
